@@ -83,11 +83,17 @@ inductive Ev
   | write (i : Bool)
   /-- instance `i`: `ensureInSync` and nothing else (`Eups.unassignTag` of a tag the stack does not hold) -/
   | check (i : Bool)
-  /-- another process of the same user (it holds the whole database): a change, then its cache file -/
+  /-- another process of the same user (a fresh process: it believes an up-to-date cache file): a change, then its cache file -/
   | other
   /-- the cache file is deleted (`eups admin clearCache` in another process) -/
   | delete
   deriving DecidableEq, Repr
+
+/-- what a fresh process of the user holds: the user's cache file when that is up to date, the database otherwise -/
+def otherMem (s : St) : List Nat :=
+  match s.file with
+  | some f => if s.dbTime ≤ f.mtime then f.content else s.db
+  | none => s.db
 
 def step (fixed : Bool) (s : St) : Ev → St
   | .write i =>
@@ -103,7 +109,7 @@ def step (fixed : Bool) (s : St) : Ev → St
   | .check i => s.setInst i (ensure fixed (s.inst i) s.file)
   | .other =>
     let c := s.db.length
-    { s with db := s.db ++ [c], dbTime := s.now, file := some ⟨s.now + 1, s.db ++ [c]⟩, now := s.now + 2 }
+    { s with db := s.db ++ [c], dbTime := s.now, file := some ⟨s.now + 1, otherMem s ++ [c]⟩, now := s.now + 2 }
   | .delete => { s with file := none }
 
 def run (fixed : Bool) (s : St) (evs : List Ev) : St := evs.foldl (step fixed) s
@@ -133,6 +139,28 @@ def loadGate (statFirst readLate : Bool) (s : St) : St :=
     let content := if readLate then (s'.file.map (·.content)).getD f.content else f.content
     let t := if statFirst then f.mtime else (s'.file.map (·.mtime)).getD f.mtime
     { s' with i1 := ⟨some t, content⟩ }
+
+/-- the constructor of instance 0 when it REBUILDS its stack (`refreshFromDatabase`, then `save()`), with another writer's
+whole command landing between the scan of the database and the `save()`.  `fixed = false` (before 03a1e94, D62): the
+files `save()` replaces are not in the dictionary of a stack that was just created, `_cacheFileIsInSync` answers True,
+and the scan of before the other writer's change is saved over the other writer's cache file.  `fixed = true`: the time
+of the file was noted before the scan (0: there was none), `save()` finds the file newer and leaves it alone. -/
+def rebuildGate (fixed : Bool) (s : St) : St :=
+  let mem := s.db
+  let t0 := (s.file.map (·.mtime)).getD 0
+  let s1 := step true s .other
+  if fixed then { s1 with i0 := ⟨some t0, mem⟩ }
+  else { s1 with i0 := ⟨some s1.now, mem⟩, file := some ⟨s1.now, mem⟩, now := s1.now + 1 }
+
+/-- `init` with the gate: instance 0 rebuilds (no usable cache anywhere) with another writer inside; instance 1 is
+constructed afterwards -/
+def initRebuildGate (fixed : Bool) (n : Nat) (fileKind : Nat) : St :=
+  let db := List.range n
+  let file : Option File := match fileKind with
+    | 0 => none
+    | _ => some ⟨1, List.range (n - 1)⟩
+  let s : St := ⟨4, db, 2, file, ⟨none, []⟩, ⟨none, []⟩⟩
+  load fixed false (rebuildGate fixed s) true
 
 /-- what a later process relies on: a cache file that is not older than the database holds the database -/
 def Safe (s : St) : Prop :=
